@@ -38,6 +38,8 @@ pub fn check_pyramid(ctx: &Ctx, rt: &tokio::runtime::Runtime, class: &str, label
 				found.insert(k, if v.is_empty() { vec![0] } else { v });
 			}
 			Ok(Ok(None)) => {}
+			// beyond the 2^z grid a refusal is as good as "no tile": nothing is returned
+			Ok(Err(_)) if (k.1 as u64) >= (1u64 << k.0) || (k.2 as u64) >= (1u64 << k.0) => ctx.outcome("lookup beyond the level grid is refused with an error"),
 			Ok(Err(e)) => ctx.violation(&format!("{class}: lookup fails: {}", super::c01::norm_msg(&e.to_string())), &format!("{label}: lookup {k:?}: {e:#}"), case.clone()),
 			Err(p) => ctx.violation(&format!("{class}: lookup panics at {}", panic_site(&p)), &format!("{label}: lookup {k:?}: {p}"), case.clone()),
 		}
@@ -94,6 +96,11 @@ fn probe_for(tiles: &TileMap) -> Vec<Key> {
 				p.push((z, x, y));
 			}
 		}
+	}
+	// coordinates beyond the 2^z grid of their level: no level box can contain them, so nothing may be returned there
+	for z in [0u8, 1, 2, 3, 9, 31] {
+		let n = (1u64 << z) as u32;
+		p.extend([(z, n, 0), (z, 0, n), (z, n, n), (z, n + 3, 1), (z, u32::MAX, u32::MAX)]);
 	}
 	p.sort();
 	p.dedup();
@@ -305,6 +312,11 @@ pub fn run(ctx: Arc<Ctx>) {
 		format!("{} | filter_zoom min=4", m(1)),
 		format!("{} | filter_bbox bbox=[-180,-85,0,85]", m(1)),
 		format!("from_overlayed [ {} | filter_zoom max=3, {} ] | filter_bbox bbox=[-180,0,180,85]", m(1), m(2)),
+		// generated sources
+		"from_debug format=pbf".to_string(),
+		"from_debug format=png".to_string(),
+		"from_debug format=pbf | filter_zoom min=1 max=9".to_string(),
+		"from_overlayed [ from_debug format=pbf | filter_zoom max=0, from_debug format=pbf ]".to_string(),
 	] {
 		match pipeline::build_op(&rt, &fac, &vpl) {
 			Ok(op) => {
